@@ -227,7 +227,17 @@ def values_equal(a, b):
         return a[1] is b[1]
     if (isinstance(a, tuple) and isinstance(b, Const)) or (isinstance(b, tuple) and isinstance(a, Const)):
         return False
+    if (_library_callable(a) and isinstance(b, Const)) or (_library_callable(b) and isinstance(a, Const)):
+        return False
     return None
+
+
+_BUILTIN_CALLABLES = ('list', 'tuple', 'dict', 'set', 'frozenset', 'str', 'int', 'len', 'sorted', 'reversed', 'bool', 'sum', 'min', 'max')
+
+
+def _library_callable(v):
+    """a builtin or a function of operator / functools / itertools, mentioned as a value"""
+    return isinstance(v, Opaque) and (v.text in _BUILTIN_CALLABLES or v.text.split('.')[0] in ('operator', 'functools', 'itertools'))
 
 
 def _lookup_error(v):
@@ -781,6 +791,9 @@ class SymEx:
         if isinstance(test, ast.Call) and is_name(test.func, 'isinstance') and len(test.args) == 2:
             out = []
             for s1, cv in self.ev(test.args[1], st, func):
+                if isinstance(cv, Opaque) and cv.text == 'object':
+                    out.extend((True, s2) for s2, _ in self.ev(test.args[0], s1, func))     # everything is an object
+                    continue
                 names = self._class_names(cv)
                 if names is None:
                     names = [x.id for x in ast.walk(test.args[1]) if isinstance(x, ast.Name)]
@@ -1459,6 +1472,24 @@ class SymEx:
             for s2, _ in res:
                 s2.env = s2.stack.pop()
             return res
+        if isinstance(f, Opaque) and f.text in ('functools.partial', 'partial') and args:
+            return [(st, ('partial', args[0], list(args[1:]), dict(kw)))]
+        if isinstance(f, tuple) and f and f[0] == 'partial':
+            return self.apply(e, f[1], list(f[2]) + list(args), dict(f[3], **kw), st, func)
+        if isinstance(f, Opaque) and f.text in ('operator.add', 'operator.concat', 'operator.iadd') and len(args) == 2 and not kw:
+            b = ast.BinOp(left=ast.Name(id='_op_l', ctx=ast.Load()), op=ast.Add(), right=ast.Name(id='_op_r', ctx=ast.Load()))
+            ast.copy_location(b, e)
+            ast.fix_missing_locations(b)
+            st.stack.append(st.env)
+            st.env = {'_op_l': args[0], '_op_r': args[1]}
+            res = self.ev(b, st, func)
+            for s2, _ in res:
+                s2.env = s2.stack.pop()
+            return res
+        if isinstance(f, Opaque) and f.text in _BUILTIN_CALLABLES and not (isinstance(e.func, ast.Name) and e.func.id == f.text):
+            r = self.builtin(f.text, args, kw, st, e)
+            if r is not None:
+                return r
         if isinstance(f, Opaque) and f.text in ('itertools.starmap', 'starmap') and len(args) == 2 and not kw:
             rows = self.as_sequence(args[1])
             if rows is None and isinstance(args[1], DictV):
